@@ -168,6 +168,49 @@ def kernel_repeats(ctx, ncases):
     ctx.stream("kernel-repeats", cases=ncases, differing=differ)
 
 
+def small_repeats(ctx, ncases):
+    """small indexes whose size is not a multiple of 8 (the visited table's last byte is partial), dense and CSR: every query
+    visits most points, so anything that survives from one query row or call to the next changes the answers"""
+    import scipy.sparse as sps
+    from pynndescent import NNDescent
+    rng = ctx.rng
+    bad = 0
+    for c in range(ncases):
+        rs = np.random.RandomState(rng.randrange(10 ** 6))
+        n = rng.choice([13, 37, 67, 131, 203, 1003])
+        sparse = rng.random() < 0.5
+        X = np.where(rs.uniform(size=(n, 10)) < 0.6, rs.uniform(0.1, 2.0, size=(n, 10)), 0).astype(np.float32)
+        X[:, 0] = 1.0
+        data = sps.csr_matrix(X) if sparse else X
+        kw = dict(metric=rng.choice(["euclidean", "cosine", "manhattan"]), n_neighbors=6, random_state=rng.randrange(1000), n_jobs=1,
+                  tree_init=rng.choice([True, False]), parallel_batch_queries=False)
+        desc = dict(n=n, sparse=sparse, kwargs=kw)
+        ctx.crumb(dict(stream="small-repeats", case=desc))
+        with warnings.catch_warnings():
+            warnings.simplefilter("ignore")
+            idx = NNDescent(data, **kw)
+            k = min(10, n)
+            a = idx.query(data, k=k)
+            a = (a[0].copy(), a[1].copy())
+            b = idx.query(data, k=k)
+            rows = [idx.query(data[i:i + 1], k=k) for i in range(0, n, max(1, n // 6))]
+            c2 = idx.query(data, k=k)
+            fresh = NNDescent(data, **kw)
+            f = fresh.query(data, k=k)
+        ctx.nontrivial.add(("sr", c))
+        why = None
+        if not same(a, (b[0], b[1])) or not same(a, (c2[0], c2[1])):
+            why = "the same batch asked again returns different answers (%d of %d rows differ)" % (int((a[0] != c2[0]).any(axis=1).sum() + (a[0] != b[0]).any(axis=1).sum()), n)
+        elif not same(a, (f[0], f[1])):
+            why = "an index with a query history answers differently from an identically seeded fresh index (%d rows)" % int((a[0] != f[0]).any(axis=1).sum())
+        if why:
+            bad += 1
+            if bad <= 2:
+                ctx.violation("query-history-dependence-small", "%s index of %d points: %s" % ("CSR" if sparse else "dense", n, why), dict(case=desc, why=why), True)
+    ctx.count(ncases)
+    ctx.stream("small-index-repeats", cases=ncases, failures=bad)
+
+
 def run(ctx):
     ctx.trusted = ["Coq 8.16.1 kernel", "extraction + ocaml/driver.ml (sequential models of apply_graph_updates_low_memory / new_build_candidates)",
                    "the interleaving model: a prange iteration's accesses to ONE heap row are atomic with respect to other threads' accesses to "
@@ -186,6 +229,7 @@ def run(ctx):
     nnd_corr.corr_apply(ctx, ctx.budget(150, 1500), True)
     nnd_corr.corr_nbc(ctx, ctx.budget(100, 1000))
     kernel_repeats(ctx, ctx.budget(6, 60))
+    small_repeats(ctx, ctx.budget(10, 80))
     histories(ctx, ctx.budget(8, 60), 3 if not ctx.thorough else 5)
     if not changed and unknown:
         common.update_sentinels(cur)
